@@ -14,7 +14,8 @@ META = dict(
     level_text="Theorems C15_poll_instants, C15_cron_per_minute, C15_oneshot_timing, C15_isolation, C15_oneshot_once_partial hold "
                "for the model coq/theories/SchedLoop.v for every start instant, latency assignment, schedule set and failure set; "
                "C15_oneshot_once_refuted exhibits the double send of defect D7 in the model (the witness is the corpus replay). "
-               "The model is tied to /repo on every run: the real run_scheduler_loop is driven for 5-60 virtual minutes and, inside "
+               "The model is tied to /repo on every run: the real run_scheduler_loop is driven for 5-60 virtual minutes (and, in a "
+               "family of long runs with hourly / n-hourly / daily crons, for 2-5 h and for about 26 h) and, inside "
                "Coq (vm_compute), (a) the code-shaped iteration body is evaluated on every observed poll (spawned set, delays, "
                "get_task_delay answers, sleep length) and (b) the system model predicts the whole run from the scenario alone (poll "
                "instants, listings, sends, attempt numbers, kick instants and outcomes).",
@@ -26,7 +27,8 @@ META = dict(
                "the distance to the next minute boundary for the 'every boundary' clause (a slower gather skips a boundary). "
                "asyncio.sleep never waking early w.r.t. the wall clock is assumed (one shared virtual clock).",
     rule="case = loop run (start instant, 1-3 sources static/removing/label, cron + one-shot + unparsable schedules with presence "
-         "windows, listing latencies, kick latencies, failing listings / kicks); non-trivial iff it crosses >= 3 minute boundaries "
+         "windows, listing latencies, kick latencies, failing listings / kicks; 4 % of the runs are long: 2-5 h or ~26 h with crons "
+         "that recur on the same minute-of-hour / hour-of-day); non-trivial iff it crosses >= 3 minute boundaries "
          "with a cron both due and not due, >= 1 one-shot, >= 1 injected failure; distinct by canonical JSON",
     trusted_base=["model: coq/theories/SchedLoop.v (hand-written transcription of taskiq/cli/scheduler/run.py loop + system model)",
                   "exact virtual-time loop and datetime shim in harness/drivers/sched_driver.py (one clock for wall and monotonic time)",
@@ -39,6 +41,7 @@ META = dict(
 
 CRONS = ["* * * * *", "*/2 * * * *", "*/3 * * * *", "*/5 * * * *"]
 BAD = ["* * * *", "bad cron", "* * * * * *"]
+NLONG_Q, NLONG_T = (13, 3), (300, 40)      # long runs per check: (2-5 h runs, ~26 h runs) quick / thorough
 
 
 # ------------------------------------------------------------------ independent cron matcher (simple forms, UTC)
@@ -159,6 +162,149 @@ def gen_case(r, long=False):
                 if r.random() < .07:
                     kfail.append([i, e["sid"], n])
     return dict(start=start, end=end, api=r.random() < .3, sources=sources, lat=lat, lfail=lfail, klat=klat, kfail=kfail)
+
+
+DAY = 1440
+
+
+def gen_long(r, day=False):
+    """LONG runs: 2-5 virtual hours (a third of them placed across midnight UTC), or - day=True - about 26 hours, with few
+    schedules whose consecutive occurrences are an hour / some hours / a day apart (`M * * * *`, `M */2 * * *`, `M H * * *`,
+    `M H,H' * * *`, ...) next to a few that recur within the hour.  What the loop (or a source) remembers from one
+    occurrence of a schedule to the next - same minute-of-hour, same hour-of-day, same schedule id an hour later - is only
+    exercised by such runs; virtual time makes them cheap because nearly all polls have nothing to send."""
+    H = r.randint(24 * 60 + 30, 27 * 60) if day else r.randint(120, 300)
+    base = r.choice([1_900_000_020, 1_700_000_040, 1_800_003_600, 2_000_000_040 + 86400 - 600]) * US
+    base += r.randrange(0, 3000) * MIN
+    if not day and r.random() < .34:       # midnight UTC inside the run
+        base = (base // (DAY * MIN) + 1) * DAY * MIN - r.randrange(20, H - 20) * MIN
+    assert base % MIN == 0
+    start = base + even(r.choice([0, 0, 2, 500_000, 59_999_998, r.randrange(MIN), r.randrange(MIN)]))
+    end = odd(base + H * MIN + r.randrange(MIN))
+    m0, m1 = start // MIN, end // MIN
+    nsrc = r.choice([1, 2, 2])
+    # stable schedule ids (static / removing scripted sources) are the point; the label source mints fresh ids per listing
+    kinds = [r.choice(["static", "static", "removing", "removing", "label"]) for _ in range(nsrc)]
+    while kinds.count("label") > 1 or "label" in kinds and nsrc == 1:    # at least one source with stable ids
+        kinds[kinds.index("label")] = "static"
+    sid = [0]
+    used_T = set()
+
+    def recurring():
+        # one whose consecutive occurrences in this run share the minute-of-hour (and, in a day run, the hour-of-day)
+        if not day:
+            return r.choice(["%d * * * *" % r.randrange(60), "%d * * * *" % r.randrange(60), "0 * * * *",
+                             "%d */2 * * *" % r.randrange(60)])
+        m = r.randrange(m0 + 1, m1 - DAY)
+        return "%d %d * * *" % (m % 60, (m // 60) % 24)
+
+    def cron():
+        m = r.randrange(m0, m1 + 1)
+        if day and r.random() < .6:        # a minute whose hour-of-day comes round again before the end of the run
+            m = r.randrange(m0, max(m0 + 1, m1 - DAY + 1))
+        mi, ho = m % 60, (m // 60) % 24
+        q = r.random()
+        if q < .3:
+            return "%d * * * *" % mi if not day or r.random() < .3 else "%d */%d * * *" % (mi, r.choice([3, 4, 6]))
+        if q < .4:
+            return "0 * * * *" if not day else "0 */%d * * *" % r.choice([4, 6, 8])
+        if q < .55:
+            return "%d */%d * * *" % (mi, r.choice([2, 2, 3]) if not day else r.choice([2, 3, 4, 6]))
+        if q < .7:
+            return "%d %d * * *" % (mi, ho)
+        if q < .8:
+            return "%d %d,%d * * *" % (mi, ho, (ho + r.randint(1, 3)) % 24)
+        if q < .88:
+            return "%d,%d * * * *" % (mi, (mi + r.choice([1, 2, 30, r.randrange(1, 60)])) % 60) if not day else \
+                   "%d,%d %d * * *" % (mi, (mi + r.randint(1, 3)) % 60, ho)
+        if q < .97 or day:
+            return r.choice(["*/30 * * * *", "*/20 * * * *", "*/15 * * * *"]) if not day else \
+                   r.choice(["*/30 */2 * * *", "0 * * * *", "*/30 %d * * *" % ho])
+        return r.choice(["* * * * *", "*/7 * * * *", "*/2 * * * *"])
+
+    def entry(kind):
+        sid[0] += 1
+        add = dele = None
+        if r.random() < .12:
+            add = odd(r.randrange(start, end))
+        if r.random() < .08:
+            dele = odd(r.randrange(add or start, end))
+            if add is not None and dele <= add:
+                dele = add + 2
+        e = dict(sid=sid[0], add=add, **{"del": dele})
+        k = r.random()
+        if k < (.08 if kind == "static" else .2):
+            mm = r.randrange(m0 - 1, m1 + 2) * MIN
+            T = r.choice([mm, mm + 500_000, mm + US, mm - 1, mm + 1, mm + r.randrange(MIN), mm + r.randrange(MIN),
+                          (add or start) - r.randrange(1, 5 * MIN)])
+            while T in used_T:
+                T += 1
+            used_T.add(T)
+            e.update(kind="one", T=T)
+        elif k < (.08 if kind == "static" else .2) + .04:
+            e.update(kind="bad", cron=r.choice(BAD))
+        else:
+            e.update(kind="cron", cron=cron())
+        if kind == "label":
+            e["task"] = r.choice(["t0", "t1"])
+        return e
+
+    sources = []
+    for kd in kinds:
+        ents = [entry(kd) for _ in range(r.randint(2, 3 if day else 4))]
+        if kd != "label" and not any(s["kind"] != "label" for s in sources):
+            e = entry(kd)
+            e.pop("T", None)
+            e.update(kind="cron", cron=recurring())
+            ents.append(e)
+        if kd == "label":
+            ents.sort(key=lambda e: (e["task"], e["add"] is not None, e["add"] or 0))
+        else:
+            ents.sort(key=lambda e: (e["add"] is not None, e["add"] or 0))
+        sources.append(dict(kind=kd, entries=ents))
+    npoll = H + 3
+    lat = []
+    z = .96 if day else .85
+    for k in range(npoll):
+        row = []
+        for _ in range(nsrc):
+            q = r.random()
+            v = 0 if q < z else r.randrange(0, 2000) if q < z + .6 * (1 - z) else r.randrange(0, 3 * US) if q < .995 else \
+                r.randrange(0, 50 * US)
+            row.append(even(v))
+        lat.append(row)
+    if r.random() < .9:
+        room = max(0, base + (start - base) // MIN * MIN + MIN - start - 2)
+        lat[0] = [even(min(v, room)) for v in lat[0]]
+    pf = .003 if day else .012
+    lfail = [[k, i] for k in range(npoll) for i in range(nsrc) if r.random() < pf]
+    klat, kfail = {}, []
+    for i, s in enumerate(sources):
+        for e in s["entries"]:
+            for n in range(8):
+                q = r.random()
+                if q < .3:
+                    klat["%d:%d:%d" % (i, e["sid"], n)] = odd(r.randrange(0, 2 * US) if q < .27 else r.randrange(0, 70 * US))
+                if r.random() < .05:
+                    kfail.append([i, e["sid"], n])
+    return dict(start=start, end=end, api=r.random() < .3, sources=sources, lat=lat, lfail=lfail, klat=klat, kfail=kfail,
+                family="long-day" if day else "long-hours")
+
+
+def recurrences(c):
+    """per cron entry: (number of matching minutes in the run, does a later match fall on the minute-of-hour of the previous
+    one, does one fall on the same hour-of-day and minute a day later) - for the evidence distribution only"""
+    out = []
+    mins = range(c["start"] // MIN, c["end"] // MIN + 1)
+    for i, s in enumerate(c["sources"]):
+        for e in s["entries"]:
+            if e["kind"] != "cron":
+                continue
+            ms = [m for m in mins if cron_matches(e["cron"], m)]
+            same_min = any(b % 60 == a % 60 for a, b in zip(ms, ms[1:]))
+            same_hm = any(b % DAY == a % DAY for a, b in zip(ms, ms[1:]))
+            out.append((s["kind"], len(ms), same_min, same_hm))
+    return out
 
 
 def kind_of(c):
@@ -338,40 +484,48 @@ def literal(c, o):
     cron_ids = {x: i for i, x in enumerate(crons)}
     m0 = c["start"] // MIN - 1
     m1 = c["end"] // MIN + 2
-    tabs = C.clist([C.clist([C.cb(cron_matches(x, m)) for m in range(m0, m1 + 1)]) for x in crons])
+    # per cron expression: the minutes m0 .. m1 (as offsets from m0) in which it matches, by the independent matcher
+    tabs = C.clist([C.clist([C.cz(m - m0) for m in range(m0, m1 + 1) if cron_matches(x, m)]) for x in crons])
     srcs = C.clist(["(mkSource %s %s)" % (C.cb(s["kind"] != "static"), C.clist(
         ["(mkEnt %s %s %s %s)" % (C.cn(e["sid"]), c_kind(e, cron_ids), C.cz(e["add"] if e["add"] is not None else c["start"] - 1),
                                   C.copt(e["del"], C.cz)) for e in s["entries"]])) for s in c["sources"]])
-    lat = C.clist(["(%s, %s, %s)" % (C.cn(k), C.cn(i), C.cz(v)) for k, row in enumerate(c["lat"]) for i, v in enumerate(row) if v])
-    lfail = C.clist(["(%s, %s)" % (C.cn(k), C.cn(i)) for k, i in c["lfail"]])
+    # per poll (position = poll number; trailing polls without an entry dropped): non-zero latencies, failing sources
+    lrows = [[(i, v) for i, v in enumerate(row) if v] for row in c["lat"]]
+    while lrows and not lrows[-1]:
+        lrows.pop()
+    lat = C.clist([C.clist(["(%s, %s)" % (C.cn(i), C.cz(v)) for i, v in row]) for row in lrows])
+    frows = [[] for _ in range(max([k for k, _ in c["lfail"]], default=-1) + 1)]
+    for k, i in c["lfail"]:
+        frows[k].append(i)
+    lfail = C.clist([C.clist([C.cn(i) for i in row]) for row in frows])
     klat = C.clist(["(%s, %s)" % (C.cpair(*[C.cn(int(x)) for x in key.split(":")]), C.cz(v)) for key, v in c["klat"].items()])
     kfail = C.clist([C.cpair(C.cn(i), C.cn(s), C.cn(n)) for i, s, n in c["kfail"]])
     ktab = C.clist(["(%s, %s, %s)" % (C.cn(i), C.cn(e["sid"]), c_kind(e, cron_ids))
                     for i, s in enumerate(c["sources"]) for e in s["entries"]])
     kicks = {(k[0], k[1], k[2]): k for k in o["kicks"]}
-    obs, obs2 = [], []
+    obs = []
+    lsdict = {}      # the listings of most polls of a long run are the same: each distinct one is written once, polls refer to it
     for p in o["polls"]:
         a = min(x for x in p["calls"] if x is not None)
-        ls = C.clist([c_listing(l) for l in p["listings"]])
+        ls = C.cn(lsdict.setdefault(C.clist([c_listing(l) for l in p["listings"]]), len(lsdict)))
         sends = []
         for i, sid, n, d in p["spawns"]:
             kk = kicks.get((i, sid, n))
             sends.append(C.cpair(C.cn(i), C.cn(sid), C.cn(n), C.cz(d), C.copt(
                 None if kk is None else "(%s, %s)" % (C.cz(kk[3]), C.copt(kk[4], C.cb)))))
-        obs.append(C.cpair(C.cz(a), C.cz(p["b"]), ls, C.clist(sends)))
-        obs2.append(C.cpair(C.cz(a), C.cz(p["b"]), ls,
-                            C.clist([C.cpair(C.cn(i), C.cn(sid), C.cn(n), C.cz(d)) for i, sid, n, d in p["spawns"]]),
-                            C.cz(p["sleep_us"])))
+        # instants of the polls as offsets (start of the poll from the start of the run, body from the start of the poll):
+        # Coq's number notation is slow on 16-digit literals and a 26 h run has 1 500 polls
+        obs.append("(OP %s %s %s %s %s)" % (C.cz(a - c["start"]), C.cz(p["b"] - a), ls, C.clist(sends), C.cz(p["sleep_us"])))
     return "(%s : case_t)" % C.cpair(C.cz(c["start"]), srcs, lat, lfail, klat, kfail, C.cz(c["end"]), tabs, C.cz(m0), ktab,
-                                     C.clist(obs), C.clist(obs2))
+                                     C.clist(list(lsdict)), C.clist(obs))
 
 
 HEADER = """From Coq Require Import ZArith List Bool Arith. Import ListNotations.
 From TQ Require Import SchedDelay SchedLoop.
 Open Scope Z_scope.
-Definition lk2 (l : list (nat * nat * Z)) (k i : nat) : Z :=
-  match find (fun x => Nat.eqb (fst (fst x)) k && Nat.eqb (snd (fst x)) i) l with Some x => snd x | None => 0 end.
-Definition lkb2 (l : list (nat * nat)) (k i : nat) : bool := existsb (fun x => Nat.eqb (fst x) k && Nat.eqb (snd x) i) l.
+Definition lk2 (l : list (list (nat * Z))) (k i : nat) : Z :=
+  match find (fun x => Nat.eqb (fst x) i) (nth k l []) with Some x => snd x | None => 0 end.
+Definition lkb2 (l : list (list nat)) (k i : nat) : bool := existsb (Nat.eqb i) (nth k l []).
 Definition eq3 (x : nat * nat * nat) (a b c : nat) : bool :=
   match x with (p, q, r) => Nat.eqb p a && Nat.eqb q b && Nat.eqb r c end.
 Definition lk3 (l : list (nat * nat * nat * Z)) (a b c : nat) : Z :=
@@ -379,12 +533,24 @@ Definition lk3 (l : list (nat * nat * nat * Z)) (a b c : nat) : Z :=
 Definition lkb3 (l : list (nat * nat * nat)) (a b c : nat) : bool := existsb (fun x => eq3 x a b c) l.
 Definition lkk (l : list (nat * nat * kind)) (i s : nat) : kind :=
   match find (fun x => Nat.eqb (fst (fst x)) i && Nat.eqb (snd (fst x)) s) l with Some x => snd x | None => KBadCron end.
-Definition case_t := (Z * list source * list (nat * nat * Z) * list (nat * nat) * list (nat * nat * nat * Z) *
-  list (nat * nat * nat) * Z * list (list bool) * Z * list (nat * nat * kind) *
-  list (Z * Z * list (option (list (nat * dres))) * list (nat * nat * nat * Z * option (Z * option bool))) * list obs_poll)%type."""
+Definition send_t := (nat * nat * nat * Z * option (Z * option bool))%type.
+Definition listings_t := list (option (list (nat * dres))).
+Definition opoll_t := (Z * Z * nat * list send_t * Z)%type.    (* the listings of a poll: position in the case's table *)
+Definition case_t := (Z * list source * list (list (nat * Z)) * list (list nat) * list (nat * nat * nat * Z) *
+  list (nat * nat * nat) * Z * list (list Z) * Z * list (nat * nat * kind) * list listings_t * list opoll_t)%type.
+Definition OP (a db : Z) (ls : nat) (sps : list send_t) (slp : Z) : opoll_t := (a, db, ls, sps, slp).
+(* a poll is written as (start of the poll - start of the run, body instant - start of the poll, ...) *)
+Definition obs1_of (start : Z) (lt : list listings_t) (p : opoll_t) :=
+  match p with (a, db, ls, sps, _) => (start + a, start + a + db, nth ls lt [], sps) end.
+Definition obs2_of (start : Z) (lt : list listings_t) (p : opoll_t) : obs_poll :=
+  match p with (a, db, ls, sps, slp) =>
+    (start + a, start + a + db, nth ls lt [],
+     map (fun y : send_t => match y with (i, s, n, d, _) => (i, s, n, d) end) sps, slp) end."""
 BODY = """Definition chk (c : case_t) : bool :=
-  let '(start, srcs, lat, lfail, klat, kfail, E, tabs, m0, ktab, obs, obs2) := c in
-  let cd := fun (c : nat) (t : Z) => nth (Z.to_nat (t / MIN - m0)) (nth c tabs []) false in
+  let '(start, srcs, lat, lfail, klat, kfail, E, tabs, m0, ktab, lstab, opolls) := c in
+  let obs := map (obs1_of start lstab) opolls in
+  let obs2 := map (obs2_of start lstab) opolls in
+  let cd := fun (c : nat) (t : Z) => existsb (Z.eqb (t / MIN - m0)) (nth c tabs []) in
   let sc := mkScenario start srcs (lk2 lat) (lkb2 lfail) (lk3 klat) (lkb3 kfail) in
   run_check cd sc E obs && forallb (poll_check cd (lkk ktab)) obs2 && C15_check cd (lkk ktab) start obs2.
 Fixpoint bad (i : nat) (l : list case_t) : list nat :=
@@ -392,8 +558,8 @@ Fixpoint bad (i : nat) (l : list case_t) : list nat :=
 Eval vm_compute in bad 0%nat cases."""
 
 
-def explore(ctx, rep, cases, label):
-    obs = C.run_driver(ctx, "sched_driver", cases)
+def explore(ctx, rep, cases, label, shard=25, chunk=None):
+    obs = C.run_driver(ctx, "sched_driver", cases, chunk=chunk)
     lits, keep = [], []
     for c, o in zip(cases, obs):
         rep.case(c, nontrivial(c))
@@ -401,6 +567,17 @@ def explore(ctx, rep, cases, label):
             rep.fail("driver crashed", c, observed=o["_crash"])
             continue
         rep.count("polls", len(o["polls"]))
+        if c.get("family"):
+            rep.count("run:" + c["family"])
+            rep.count("run:" + c["family"] + ":polls", len(o["polls"]))
+            if c["start"] // (DAY * MIN) != c["end"] // (DAY * MIN):
+                rep.count("run:" + c["family"] + ":crosses-midnight")
+        if (c["end"] - c["start"]) // MIN > 60:
+            for skind, nocc, same_min, same_hm in recurrences(c):
+                if nocc >= 2 and same_min:
+                    rep.count("cron:recurs-on-same-minute-of-hour:" + ("fresh-ids" if skind == "label" else "stable-ids"))
+                if nocc >= 2 and same_hm:
+                    rep.count("cron:recurs-on-same-hour-and-minute-next-day:" + ("fresh-ids" if skind == "label" else "stable-ids"))
         rep.count("kicks", len(o["kicks"]))
         rep.count("kicks:failed", sum(1 for k in o["kicks"] if k[4] is False))
         for s in c["sources"]:
@@ -429,7 +606,7 @@ def explore(ctx, rep, cases, label):
         except (AssertionError, ValueError, TypeError) as e:
             if not bad:
                 rep.fail("observation not encodable for the model", c, observed=repr(e))
-    bd, fails, _ = C.coq_eval(ctx, label, HEADER, lits, BODY, shard=25)
+    bd, fails, _ = C.coq_eval(ctx, label, HEADER, lits, BODY, shard=shard)
     rep.corr(label, len(lits), bd, fails, lambda i: keep[i])
     rep.traces += len(lits) - len(bd)
     return bool(bd or fails)
@@ -447,6 +624,11 @@ def run(ctx):
     r = ctx.sub_rng("gen")
     cases = [gen_case(r, long=(k % 25 == 0)) for k in range(ctx.n(400, 9000))]
     broken = explore(ctx, rep, cases, "main")
+    # long runs (hours; ~26 h): few schedules whose next occurrence is an hour / some hours / a day away - see gen_long
+    r3 = ctx.sub_rng("long")
+    nh, nd = ctx.n(NLONG_Q[0], NLONG_T[0]), ctx.n(NLONG_Q[1], NLONG_T[1])
+    longs = [gen_long(r3, day=(k % (nh // nd + 1) == nh // nd)) for k in range(nh + nd)]
+    broken = explore(ctx, rep, longs, "long", shard=1 if ctx.quick else 4, chunk=1 if ctx.quick else None) or broken
     unexplained = [f for f in rep.failures if not sig_d7(f)]
     if (broken or any(not o["ok"] for o in rep.obligations)) and not unexplained:
         r2 = ctx.sub_rng("search")
@@ -463,11 +645,22 @@ def replay(ctx, path):
     if "_crash" in o:
         print("implementation crashed:", o["_crash"])
         return 1
-    for k, p in enumerate(o["polls"][:70]):
+    bad = oracle(c, o)
+    # a long run has hundreds of polls with nothing to send: show those that sent something or are named by a violation
+    npolls = len(o["polls"])
+    named = {sig["poll"] for _, sig in bad if isinstance(sig.get("poll"), int)}
+    shown = 0
+    for k, p in enumerate(o["polls"]):
+        if npolls > 70 and not (k < 3 or p["spawns"] or k in named):
+            continue
+        shown += 1
+        if shown > 150:
+            break
         print("poll %d: called %s body %d listings %s spawned %s sleep %d us" % (k, p["calls"], p["b"], p["listings"], p["spawns"],
                                                                                 p["sleep_us"]))
+    if npolls > 70:
+        print("(%d polls in all; polls that sent nothing are not shown)" % npolls)
     print("kicks (source, sid, attempt, instant, ok, schedule_id, task):", o["kicks"][:60])
-    bad = oracle(c, o)
     try:
         mb, fails, _ = C.coq_eval(ctx, "replay", HEADER, [literal(c, o)], BODY)
         print("model (coq/theories/SchedLoop.v) predicts this run:", not mb and not fails)
